@@ -2,6 +2,7 @@ import Glas.Model.TextCmd
 import Glas.Model.SyntaxCmd
 import Glas.Model.ScopeCmd
 import Glas.Model.PrattCmd
+import Glas.Model.SearchCmd
 /-! The executable model behind a one-line-in, one-line-out protocol (tab-separated fields). -/
 open Glas
 
@@ -18,7 +19,10 @@ def dispatch (line : String) : String :=
       | none =>
         match PrattCmd.run args with
         | some r => r
-        | none => "bad-op"
+        | none =>
+          match SearchCmd.run args with
+          | some r => r
+          | none => "bad-op"
 
 partial def loop (h : IO.FS.Stream) (out : IO.FS.Stream) : IO Unit := do
   let line ← h.getLine
